@@ -5,6 +5,7 @@ HARNESSES = {
     "int2str": dict(cfg="asan_nso", sources=["harness/int2str.cpp"], lib_only=["/format/detail/"]),
     "int2str_fast": dict(cfg="plain", sources=["harness/int2str.cpp"], lib_only=["/format/detail/"],
                          kind_text="bounded exhaustive enumeration (all 2^32 values), plain -O2 build with canaries"),
+    "textblock": dict(cfg="asan", sources=["harness/textblock.cpp"], lib_only=["/format/text_block.cpp"]),
 }
 
 PROPS = {}
@@ -57,6 +58,23 @@ PROPS["C13"] = dict(
                  "the sampled parts run under ASan with exact-size heap buffers"],
 )
 
+PROPS["C17"] = dict(
+    units=[
+        dict(harness="textblock", mode="format", kind="enum", quick=dict(), thorough=dict()),
+        dict(harness="textblock", mode="format", quick=dict(cases=40000), thorough=dict(cases=400000, shards=16)),
+    ],
+    rule="texts of 1..6 input lines (single or doubled newline between them) of 0..15 words (length 1..width-indent+3, "
+         "some starting with '-', the token 'nn' anywhere) x indent 0..12 x width indent+5..indent+40 x both first-line "
+         "modes; exhaustive part: vocabulary {a,bbb,ccccc,-d,nn}, 1..5 words, every blank/newline separator pattern, "
+         "indent {0,2}, width indent+{5,8}, both modes. Non-trivial = at least one wrap that is not caused by 'nn' and "
+         "(a dash word, an 'nn' or an embedded newline); distinct by hash of the serialised case.",
+    require_classes=dict(all=["wrap", "nn", "dash_line", "embedded_newline"]),
+    assumptions=["words are separated by single blanks and are not the token 'nn' unless meant as the forced break",
+                 "with first-line indentation off the first line is assumed to follow <indent> characters already printed "
+                 "(that is what the class documents), so its width is counted as indent+length",
+                 "indent+2 continuation lines are demanded only for list lines whose first word starts with '-' and fits on the first line"],
+)
+
 HOOK_COMMITS = []
 
 EXPL = ("no counter-example among the generated cases; this is search, not proof - a passing run never shows absence. "
@@ -71,6 +89,12 @@ MANIFEST_TEXT["C13"] = dict(
     design_ref="DESIGN.md section 4, C13",
     note="Trusts the 30-line reference converter in harness/int2str.cpp; 64-bit space is sampled, not enumerated.",
     technique="bounded exhaustive enumeration + property-based testing (rapidcheck) against an independent reference conversion")
+MANIFEST_TEXT["C17"] = dict(
+    text="Generated and (for a tiny vocabulary) exhaustively enumerated texts are formatted and the output is judged by validity "
+         "predicates - same word sequence, newline separation, indentation prefix, width unless single word - not by one expected layout. " + EXPL,
+    design_ref="DESIGN.md section 4, C17",
+    note="Trusts the word/line splitting of the harness; layout choices the property leaves open (how greedily lines are filled) are not judged.",
+    technique="property-based testing (rapidcheck) + bounded exhaustive enumeration against validity predicates")
 MANIFEST_TEXT["C19"] = dict(
     text="Exhaustive enumeration of all get/append sequences up to length 5 for buffer sizes 1..3 (all chunk scripts), plus "
          "rapidcheck-generated sequences for sizes up to 64, each compared byte for byte with the source / the appended stream. " + EXPL,
